@@ -270,6 +270,20 @@ def check_type(sh, shape, rng, case):
         W("hash-raises-on-comparable-value", error=str(e)[:80],
           mech="hash-list-field-unhashable" if has(shape, "list") and "unhashable type: 'list'" in str(e) else None)
     prev = (o, exp)
+    # deepcopy of CONTAINERS that hold several distinct, equal values (a list of reset messages, a dict of defaults, an object
+    # with two attributes): every entry of the copy is an object of its own, writing one leaves the others alone
+    class _Holder: pass
+    h_ = _Holder(); h_.p = B.val(shape, v); h_.q = B.val(shape, v)
+    for cname, cont, items in (("list", [B.val(shape, v) for _ in range(3)], lambda c: list(c)), ("dict", {"lo": B.val(shape, v), "hi": B.val(shape, v)}, lambda c: [c["lo"], c["hi"]]),
+                               ("tuple-in-list", [(B.val(shape, v), B.val(shape, v))], lambda c: list(c[0])), ("object", h_, lambda c: [c.p, c.q])):
+      cp = items(copy.deepcopy(cont)); orig = items(cont)
+      sh.count("container_deepcopies_checked")
+      if len({id(x) for x in cp}) != len(cp) or any(a is b for a in cp for b in orig):
+        W("deepcopy-of-a-container-shares-objects", container=cname, value=v); break
+      other_ = gen_val(rng, shape, "rand")
+      cp[0] @= B.val(shape, other_)
+      if any(readback(shape, x) != v for x in cp[1:]) or any(readback(shape, x) != v for x in orig):
+        W("writing-one-entry-of-a-deep-copied-container-changes-another", container=cname, value=v, written=other_); break
     # copies
     for how in ("clone", "deepcopy", "copy", "imatmul", "imatmul_bits", "ilshift"):
       src = B.val(shape, v)
